@@ -5,4 +5,6 @@ p='/verif/DESIGN.md'
 s=open(p).read()
 t=subprocess.check_output(['python3','/verif/tools/seeded_table.py']).decode()
 s=re.sub(r'<!-- seeded-table-begin -->.*?<!-- seeded-table-end -->','<!-- seeded-table-begin -->\n'+t+'<!-- seeded-table-end -->',s,flags=re.S)
+t=subprocess.check_output(['python3','/verif/tools/benign_table.py']).decode()
+s=re.sub(r'<!-- benign-table-begin -->.*?<!-- benign-table-end -->','<!-- benign-table-begin -->\n'+t+'<!-- benign-table-end -->',s,flags=re.S)
 open(p,'w').write(s)
